@@ -204,8 +204,21 @@ func (wr *warnResponseWrapper) Write(b []byte) (int, error) {
 	return wr.tee.Write(b)
 }
 
+// isInformational reports whether status is an interim (1xx) status: net/http
+// sends it at once and leaves the header open for the final status. 101
+// (Switching Protocols) is final.
+func isInformational(status int) bool {
+	return status >= 100 && status <= 199 && status != http.StatusSwitchingProtocols
+}
+
 // WriteHeader implements http.ResponseWriter.
 func (wr *warnResponseWrapper) WriteHeader(status int) {
+	if !wr.headerWritten && isInformational(status) {
+		// An interim response (e.g. 103 Early Hints) is not the response's
+		// status: pass it through and keep waiting for the final one.
+		wr.w.WriteHeader(status)
+		return
+	}
 	if !wr.headerWritten {
 		// If the header hasn't been written, record the status for response
 		// validation.
@@ -258,6 +271,11 @@ func (wr *strictResponseWrapper) Write(b []byte) (int, error) {
 
 // WriteHeader implements http.ResponseWriter.
 func (wr *strictResponseWrapper) WriteHeader(status int) {
+	if !wr.headerWritten && isInformational(status) {
+		// An interim response (e.g. 103 Early Hints) is not the response's
+		// status. Nothing reaches the client before validation, so it is dropped.
+		return
+	}
 	if !wr.headerWritten {
 		wr.status = status
 		wr.headerWritten = true
